@@ -611,7 +611,7 @@ def translate(repo):
         fname = [f for f, c in COQ_NAME.items() if c == cn][0]
         rows.append("  | %s => mkmetric (%s) %s" % (cn, done[fname]["fam"], done[fname]["rooted"]))
     text = ["(* GENERATED by translator/metricq.py from %s - do not edit *)" % SRC,
-            "From Coq Require Import QArith Qabs List Bool ZArith.",
+            "From Coq Require Import QArith Qabs List Bool ZArith String.",
             "Require Import SkV.C06.Model.",
             "Import ListNotations.",
             "Open Scope Q_scope.",
@@ -621,6 +621,10 @@ def translate(repo):
     text += rows + ["  end.", ""]
     text += ["Definition gen_defaults (n : mname) : opts :=", "  match n with"]
     text += _default_opts(funcs) + ["  end.", ""]
+    text += ["(* which python function each row above was read from *)",
+             "Definition gen_fname (n : mname) : string :=", "  match n with"]
+    text += ['  | %s => "%s"' % (cn, [f for f, c in COQ_NAME.items() if c == cn][0]) for cn in ORDER]
+    text += ["  end.", ""]
     return {"C06/Gen.v": "\n".join(text)}
 
 
@@ -698,6 +702,30 @@ def _read_base_init(fn):
     return names[4:], attrs
 
 
+RL_FUNCS = ("mean_absolute_error", "mean_squared_error", "median_absolute_error",
+            "median_squared_error")
+
+
+def _ctor_default(cls, p, d, node):
+    """default of a constructor parameter as a Coq `oval`."""
+    _need(d is not None, "%s(%s) has no default" % (cls, p), node)
+    if isinstance(d, ast.Constant):
+        v = d.value
+        if isinstance(v, bool):
+            return "VBool %s" % ("true" if v else "false")
+        if isinstance(v, int) and v >= 0 and p == "sp":
+            return "VNat %d" % v
+        if isinstance(v, (int, float)):
+            a, b = float(v).as_integer_ratio()
+            return "VQ (%s # %d)" % ("(%d)" % a if a < 0 else "%d" % a, b)
+        if v in ("squared", "absolute"):
+            return "VPw %s" % ("PSq" if v == "squared" else "PAbs")
+    if isinstance(d, ast.Name) and d.id in RL_FUNCS:
+        return "VLoss %s %s" % ("PAbs" if "absolute" in d.id else "PSq",
+                                "Median" if d.id.startswith("median") else "Mean")
+    raise Unsupported("default of %s(%s): %s" % (cls, p, _u(d)))
+
+
 def class_facts(repo):
     with open(os.path.join(repo, CLS_SRC)) as f:
         mod = ast.parse(f.read())
@@ -720,9 +748,10 @@ def class_facts(repo):
         base = classes[c.bases[0].id]
         m = _methods(c)
         _need(set(m) == {"__init__"}, "methods of " + c.name, c)
-        ctor, _ = _params(m["__init__"])
+        ctor, ctor_d = _params(m["__init__"])
         _need(ctor[0] == "self", "constructor of " + c.name, c)
         ctor = ctor[1:]
+        ctor_defaults = [(p_, _ctor_default(c.name, p_, ctor_d[p_], m["__init__"])) for p_ in ctor]
         local = {}
         sup = None
         for s in _strip_doc(m["__init__"]):
@@ -742,6 +771,12 @@ def class_facts(repo):
         chain = [base] + [classes[b.id] for b in base.bases
                           if isinstance(b, ast.Name) and b.id in classes]
         _need(all(isinstance(b, ast.Name) for b in base.bases), "bases of " + base.name, base)
+        # the method lookup below is python's only if the MRO is base, then its bases left to
+        # right, and none of those inherits a method from a class of this module
+        for k in chain[1:]:
+            _need(all(isinstance(b, ast.Name) and b.id not in classes for b in k.bases),
+                  "bases of " + k.name, k)
+        _need(all(b.id in classes for b in base.bases) or base is root, "bases of " + base.name, base)
         init = next((_methods(k)["__init__"] for k in chain if "__init__" in _methods(k)), None)
         call = next((_methods(k)["__call__"] for k in chain if "__call__" in _methods(k)), None)
         _need(init is not None and call is not None, "methods of " + base.name, base)
@@ -761,7 +796,7 @@ def class_facts(repo):
                 attrs[attr] = ("fixed",)       # the wrapper's own default
         kwargs, fw = _read_call(call)
         out[c.name] = {"func": fv.id, "ctor": ctor, "attrs": attrs, "call_kwargs": kwargs,
-                       "forwards": fw}
+                       "forwards": fw, "ctor_defaults": ctor_defaults}
     missing = [f for f in sigs if f not in {v["func"] for v in out.values()}]
     _need(not missing, "functions without a class: %s" % missing)
     return out, sigs
@@ -794,11 +829,17 @@ def translate_classes(repo):
     rows = ["  (%s,\n   %s)" % (coq_wrapper(n, w), coq_fsig(w["func"], sigs[w["func"]]))
             for n, w in sorted(facts.items())]
     text = ["(* GENERATED by translator/metricq.py from %s - do not edit *)" % CLS_SRC,
-            "From Coq Require Import String List Bool.",
-            "Require Import SkV.C06.Wrap.",
+            "From Coq Require Import QArith String List Bool.",
+            "Require Import SkV.C06.Model SkV.C06.Wrap SkV.C06.WrapSem.",
             "Import ListNotations.",
             "Open Scope string_scope.",
             "",
             "Definition gen_wrappers : list (wrapper * fsig) := [",
-            ";\n".join(rows), "].", ""]
+            ";\n".join(rows), "].", "",
+            "(* class, wrapped function, defaults of the constructor parameters *)",
+            "Definition gen_ctor_defaults : list (string * string * list (string * oval)) := [",
+            ";\n".join("  (%s, %s, %s)" % (_cs(n), _cs(w["func"]), _clist(
+                ["(%s, %s)" % (_cs(p_), v) for p_, v in w["ctor_defaults"]]))
+                for n, w in sorted(facts.items())),
+            "].", ""]
     return {"C06/GenWrap.v": "\n".join(text)}
